@@ -27,6 +27,9 @@ def vectors(ctx):
     for k in range(1, 43):
         for arr in (0, 1):
             V.append({"fn": "aero.isa", "k": k, "arr": arr, "case": ["isa", k, arr]})
+    # one altitude buffer updated in place and re-evaluated (trajectory-style use)
+    for n in range(ctx.pick(30, 1000)):
+        V.append({"fn": "aero.track", "ks": [rng.randint(1, 42) for _ in range(rng.randint(2, 6))], "case": ["track", n]})
     V.append({"fn": "aero.tropopause", "case": ["tropo"]})
     alts = sorted(set([-500 + 500 * k for k in range(42)] + [10999.999, 11000, 11000.001] + extra_alts))
     if ctx.quick:
